@@ -12,7 +12,7 @@ import (
 func init() {
 	register("C02", &ruleSet{
 		run:    runC02,
-		floors: map[string]int{"O1": 4, "O2": 6, "O3": 8, "O4": 1, "O5": 8, "O6": 1, "O7": 2, "O8": 3},
+		floors: map[string]int{"O1": 4, "O2": 6, "O3": 8, "O4": 1, "O5": 8, "O6": 1, "O7": 2, "O8": 3, "O9": 3},
 		explain: "Decides the release/complete pairing on all CFG paths of all layers (timeout, cancel and refused hand-off are ordinary paths): (O1) each outcome of a " +
 			"capacity-owning listener decrements the limiter's in-flight gauge by exactly 1 and releases the strategy token exactly once on every path; (O2) each " +
 			"wrapping listener forwards OnX to the delegate's same-named method exactly once; (O3) typestate: every listener/token obtained from delegate.Acquire, " +
@@ -36,6 +36,8 @@ func runC02(p *Prog, l *Ledger) {
 	l.Rule("O7", "StaticStrategyToken.Release invokes the stored release function exactly once; constructors store the given function")
 	l.Rule("O8", "non-partitioned strategies (decided by the C01/O2 rule on the same tree): grant = counter +1 exactly once, refusal writes nothing, the token's release does -1 exactly once on the same counter, no other writer")
 	importObligations(p, l, "C01", "O8", func(o *Obligation) bool { return o.Rule == "O2" })
+	l.Rule("O9", "nobody who has left is handed capacity (decided by the C12/O2 rule on the same tree): a caller that returns from a queueing Acquire has taken its own element out of the backlog, so a later release cannot acquire a token for it and park it where nobody reads")
+	importObligations(p, l, "C12", "O9", func(o *Obligation) bool { return o.Rule == "O2" })
 	l.NotCovered = []string{"callers completing a listener twice or never (API misuse)", "quiescent values (all zero) are a consequence, not separately computed"}
 
 	lisIface := p.coreIface("Listener")
